@@ -224,7 +224,7 @@ static void run(void) {
     else whole_res(3, 12, 4);
     /* every target on the globe from sampled origins at res 4 (thorough: denser, and res 5): distances on the scale of a
      * base cell, where an unfolding across a pentagon can succeed with a value that is not the shortest way round */
-    whole_res(4, -1, VF_T(-600, -60));
+    whole_res(4, -1, VF_T(-1800, -60));
     if (VF.thorough) whole_res(5, -1, -4200);
     /* pentagon neighbourhoods at every resolution */
     H3Index seeds[600];
